@@ -76,12 +76,16 @@ class CommonSubexpressionEliminationPass(ir.passes.InPlacePass):
                 # The attribute value could be directly taken from the original
                 # protobuf, so we need to make a copy of it.
                 value = v.value
-                if v.type in (
+                if v.type is ir.AttributeType.FLOAT:
+                    # 0.0 == -0.0 in Python: compare the bit pattern instead
+                    value = float(value).hex()
+                elif v.type is ir.AttributeType.FLOATS:
+                    value = tuple(float(x).hex() for x in value)
+                elif v.type in (
                     ir.AttributeType.INTS,
-                    ir.AttributeType.FLOATS,
                     ir.AttributeType.STRINGS,
                 ):
-                    # For INT, FLOAT and STRING attributes, we convert them to tuples
+                    # For INT and STRING attributes, we convert them to tuples
                     # to ensure they are hashable.
                     value = tuple(value)
                 elif v.type is ir.AttributeType.TENSOR:
@@ -89,9 +93,12 @@ class CommonSubexpressionEliminationPass(ir.passes.InPlacePass):
                         # If the tensor is larger than the size limit, we skip it.
                         large_tensor = True
                         break
-                    np_value = value.numpy()
-
-                    value = (np_value.shape, str(np_value.dtype), np_value.tobytes())
+                    if value.dtype.is_string():
+                        # numpy pads strings with NUL to a fixed width: b"a" and b"a\x00" would collide
+                        value = (tuple(value.shape), "string", tuple(bytes(s) for s in value.string_data()))
+                    else:
+                        np_value = value.numpy()
+                        value = (np_value.shape, str(np_value.dtype), np_value.tobytes())
                 # Include the attribute type: INT 1 and FLOAT 1.0 compare equal in Python
                 attributes[k] = (v.type, value)
 
@@ -154,8 +161,12 @@ def _remove_node_and_replace_values(
     # Update graph/function outputs if the node generates output
     if any(remove_value.is_graph_output() for remove_value in remove_values):
         replacement_mapping = dict(zip(remove_values, new_values))
+        aliases: dict[ir.Value, ir.Value] = {}
         for idx, graph_output in enumerate(graph.outputs):
-            if graph_output in replacement_mapping:
+            if graph_output in aliases:
+                # the same value listed again: reuse its replacement
+                graph.outputs[idx] = aliases[graph_output]
+            elif graph_output in replacement_mapping:
                 new_value = replacement_mapping[graph_output]
                 if new_value.is_graph_output() or new_value.is_graph_input():
                     # If the new value is also a graph input/output, we need to
@@ -173,6 +184,7 @@ def _remove_node_and_replace_values(
                         ],
                     )
                     # reuse the name of the graph output
+                    aliases[graph_output] = identity_node.outputs[0]
                     graph.outputs[idx] = identity_node.outputs[0]
                     graph.insert_before(
                         remove_node,
@@ -180,8 +192,13 @@ def _remove_node_and_replace_values(
                     )
                 else:
                     # if new_value is not graph output, we just
-                    # update it to use old_value name.
+                    # update it to use old_value name (and its declared type/shape).
                     new_value.name = graph_output.name
+                    if new_value.type is None:
+                        new_value.type = graph_output.type
+                    if new_value.shape is None:
+                        new_value.shape = graph_output.shape
+                    aliases[graph_output] = new_value
                     graph.outputs[idx] = new_value
 
     # Reconnect the users of the deleted values to use the new values
